@@ -349,6 +349,36 @@ def rule_6(ctx):
     ctx.floor(n, 'date pairs x units')
 
 
+DAY_CELLS = {
+    'A1': '=DATE(1900,3,1)', 'B1': '=DATE(1900,2,28)', 'C1': '=DATE(2024,3,1)', 'D1': '=DATE(2023,12,31)', 'E1': 45000, 'F1': 44000.25,
+    'R1': '=DAYS(A1,B1)', 'R2': '=A1-B1', 'R3': '=A1-59', 'R4': '=DAYS(C1,D1)', 'R5': '=C1-D1', 'R6': '=DAYS(DATE(1900,12,31),DATE(1900,1,1))',
+    'R7': '=DAYS(B1,A1)', 'R8': '=DAYS(E1,44000)', 'R9': '=DAYS(61,59)', 'R10': '=DATE(1900,3,1)-DATE(1900,1,1)', 'R11': '=DAYS(C1,A1)',
+    'R12': '=C1-A1', 'R13': '=DAYS(A1,1)', 'R14': '=A1-B1+D1-C1', 'R15': '=DAYS(DATE(2000,3,1),DATE(2000,2,1))', 'R16': '=DATE(2001,3,1)-DATE(2001,2,1)',
+    'R17': '=YEAR(A1)&"-"&MONTH(B1)&"-"&DAY(B1)', 'R18': '=DAYS(45000,E1)',
+}
+DAY_EXPECTED = {'R1': 2, 'R2': 2, 'R3': 2, 'R4': 61, 'R5': 61, 'R6': 365, 'R7': -2, 'R8': 1000, 'R9': 2, 'R10': 60, 'R11': 45352 - 61, 'R12': 45352 - 61,
+                'R13': 60, 'R14': 2 - 61, 'R15': 29, 'R16': 28, 'R17': '1900-2-28', 'R18': 0}
+
+
+def rule_7(ctx):
+    """A witness workbook, interpreted as written: DAYS and the subtraction of dates - dates built by DATE, held in cells, given as
+    serials, on both sides of the fictitious 1900-02-29 and across leap years - equal the difference of the serial numbers."""
+    from . import workbook as W
+    from . import scenarios as S
+    from . import values as V
+    from .c10 import _as_value
+    anchor = _reg(ctx, 'DAYS').node
+    wb = W.Workbook(ctx, DAY_CELLS, models=V.date_models())
+    for a, w in DAY_EXPECTED.items():
+        got = wb.value('Sheet1!' + a)
+        if isinstance(got, tuple) and got and got[0] == 'error-class':
+            got = ('error', W.error_code(ctx, got[1]))
+        ctx.expect(S.same(got, _as_value(w)), anchor, f'day differences: {DAY_CELLS[a]}',
+                   f'{a} = {DAY_CELLS[a]} (A1 = 1900-03-01 = serial 61, B1 = 1900-02-28 = serial 59, C1 = 2024-03-01 = 45352, D1 = 2023-12-31) '
+                   f'evaluates to {got!r}, expected {w!r}: the difference of two dates is the difference of their serial numbers')
+    ctx.floor(18, 'day-difference cells')
+
+
 RULES = [
     ('C18.1', 'serial <-> date: leap-day offsets at critical points, time-of-day coefficients', rule_1),
     ('C18.2', 'epoch and year-range guards', rule_2),
@@ -356,4 +386,5 @@ RULES = [
     ('C18.4', 'serials are truncated alike', rule_4),
     ('C18.5', 'YEARFRAC basis dispatch', rule_5),
     ('C18.6', 'DATEDIF on critical date pairs (anniversary -1/0/+1 day, leap years) through the registered wrapper', rule_6),
+    ('C18.7', 'witness workbook: DAYS and date subtraction equal the difference of the serials', rule_7),
 ]
